@@ -41,9 +41,28 @@ def seeds_table():
         rows.append("| %s | %s | %s | %s%s |" % (name, ", ".join(f.split("/")[-1] for f in files), r.get("exit", "not run"), "; ".join("**%s**" % b if not b.startswith("bounded:") and not b.startswith("kani") else b for b in by) or "—", note))
     return "\n".join(rows)
 
+def mutation_table():
+    rows = ["| file | unit(s) | mutants | do not compile | killed by a Verus obligation | undecided (front end / lost anchor / rlimit) | survive Verus, killed by the bounded run | survive both | survive Verus (bounded not run) |", "|---|---|---|---|---|---|---|---|---|"]
+    for f in sorted(glob.glob(os.path.join(HERE, "mutation", "*.json"))):
+        d = json.load(open(f))
+        sm = d["summary"]
+        rows.append("| %s | %s | %d | %d | %d | %d | %d | %d | %d |" % (d["file"].split("/")[-2] + "/" + d["file"].split("/")[-1], ", ".join(d["units"]), len(d["mutants"]), sm.get("does-not-compile", 0), sm.get("killed", 0), sm.get("undecided", 0), sm.get("survived-verus-killed-by-bounded", 0), sm.get("survived-both", 0), sm.get("survived", 0)))
+    return "\n".join(rows)
+
+def refactor_table():
+    rp = os.path.join(HERE, "refactors", "RESULTS.json")
+    res = json.load(open(rp)) if os.path.exists(rp) else {}
+    rows = ["| refactoring | file(s) | checks run (exit) | Verus obligations |", "|---|---|---|---|"]
+    for k in sorted(res):
+        v = res[k]
+        und = sum(1 for c in v["checks"].values() for l in c["lines"] if l.startswith("UNDECIDED"))
+        alarms = [p for p, c in v["checks"].items() if c["exit"] != 0 or any(l.startswith(("VIOLATION", "INTERNAL")) for l in c["lines"])]
+        rows.append("| %s | %s | %s | %s |" % (k, ", ".join(f.split("/")[-1] for f in v["files"]), " ".join("%s:%s" % (p, c["exit"]) for p, c in v["checks"].items()), ("**ALARM in %s**" % ",".join(alarms)) if alarms else ("all re-proved" if not und else "some undecided (printed as UNDECIDED, exit 0)")))
+    return "\n".join(rows)
+
 p = os.path.join(HERE, "DESIGN.md")
 s = open(p).read()
-for tag, fn in (("STATUS", status_table), ("SEEDS", seeds_table)):
+for tag, fn in (("STATUS", status_table), ("SEEDS", seeds_table), ("MUTATION", mutation_table), ("REFACTORS", refactor_table)):
     a = "<!-- BEGIN:%s -->" % tag
     b = "<!-- END:%s -->" % tag
     if a in s and b in s:
